@@ -170,7 +170,7 @@ def _skip(name, role, buffered):
     return K(name, "%s%s on EVERY byte string <= 14 bytes with at most one leading unknown frame, arbitrary first_frame_done: result == reference (unknown frame skipped whole, rule table, error codes, exact consumption%s)" % (
         role, " (buffered)" if buffered else "", "; offset unchanged unless Some" if buffered else ""),
         [P + "stream.rs::%s::read_frame%s" % (role, "_from_buffer" if buffered else "")],
-        tier="thorough", kind="bounded", bound="input <= 14 bytes, <= 1 leading unknown frame (base case + one induction step; the unbounded loop argument is Verus unit stream_skip)")
+        tier="thorough", kind="bounded", bound="input <= 14 bytes, <= 1 leading unknown frame (base case + one induction step; the unbounded loop argument is Verus unit `frame`)")
 
 STREAM_KANI_THOROUGH = [
     _skip("p_read_frame_biremote_k1", "biremote", False), _skip("p_read_frame_bilocal_k1", "bilocal", False),
@@ -262,15 +262,15 @@ TECH = "contract-based deductive verification: Kani function contracts / full-do
 PROPS = {
     "C01": {
         "level": "proof",
-        "claim": "Preamble codec only: the WebTransport stream preamble (0x54 / 0x41 varint + session id varint) is written exactly and stripped exactly - encoders emit precisely those bytes for every session id, decoders (one-shot, buffered, and the async leaf futures under every chunking / Pending pattern by one-step induction) consume precisely those bytes and never a following application byte.",
-        "note": "Not decided: that quinn delivers stream bytes in order, the driver's tasks, concurrency between streams, flow control, the async composites (StreamHeader::read_async / Frame::read_async are sequential compositions of the verified leaf futures - async fn desugaring trusted).",
+        "claim": "Preamble codec only, both directions and both styles: the WebTransport stream preamble (0x54 / 0x41 varint + session id varint) is written exactly (StreamHeader/Frame encoders and the local upgrades, sync and async, Verus unit frame_write + Kani) and stripped exactly (one-shot, buffered at every cut point, async as sequential composition of the leaf futures whose one-step inductive poll contracts cover every chunking / Pending pattern): decoders consume precisely the preamble and never a following application byte.",
+        "note": "Not decided: that quinn delivers stream bytes in order, the driver's tasks, concurrency between streams, flow control. Assumed: async fn desugaring composes awaits sequentially (rewrite R9); BytesReader/Writer and AsyncReader/Writer interfaces are assumed in Verus and discharged for the real impls / leaf futures by the named Kani harnesses.",
         "kani": STREAM_HEADER_KANI + [STREAM_KANI_QUICK[4], STREAM_KANI_QUICK[5], FRAME_READ_20, STREAM_KANI_BUFFERED[0]] + ASYNC_LEAF_KANI,
         "verus": [V("frame", pair=("proto", "p_frame_read_matches_reference_20")), V("frame_async"), V("stream_header", pair=("proto", "p_stream_header_read_matches_reference")), V("frame_write", pair=("proto", "p_frame_write_roundtrip_8"))],
         "not_decided": ["in-order delivery (quinn)", "worker tasks / concurrency", "async composites beyond their leaf futures"],
     },
     "C03": {
         "level": "proof",
-        "claim": "Datagram codec and size arithmetic: for every quarter stream id and payload the encoder emits varint(qid)||payload with the exact announced size (all-or-nothing), the decoder returns exactly the remaining bytes as payload (zero-copy) for every input, rejects ids > 2^60-1 / truncated ids with H3_DATAGRAM_ERROR, and the header overhead used for the size contract is exactly the varint length.",
+        "claim": "Datagram codec and size arithmetic: for every quarter stream id and payload the encoder emits varint(qid)||payload with the exact announced size (all-or-nothing, Kani); the proto and the driver decoders return exactly the bytes after the id varint for inputs of ANY length, attributed to session 4*qid, and reject ids > 2^60-1 / truncated ids with H3_DATAGRAM_ERROR (Verus unit datagram + Kani on every byte string <= 12); Connection::max_datagram_size never underflows and is exact for any limit the peer may advertise.",
         "note": "Payload length bounded (16 quick / 256 thorough) on Kani; proto and driver Datagram::read for ANY length are Verus unit `datagram`; header part complete. Assumed: quinn refuses exactly frames above its max_datagram_size; loss/reordering are transport behaviour. Not decided: Driver::receive_datagram session filtering (async).",
         "kani": DATAGRAM_KANI + [DRIVER_DGRAM_HDR],
         "verus": [V("datagram")],
@@ -278,7 +278,7 @@ PROPS = {
     },
     "C04": {
         "level": "proof",
-        "claim": "Capsule path only: a DATA payload is a CLOSE_WEBTRANSPORT_SESSION capsule iff type 0x2843 with a complete length; the close carries exactly the big-endian 32-bit code (all 2^32) and the reason bytes unchanged, is accepted iff 4 <= len <= 1028 and UTF-8, and every malformed capsule is a protocol error (H3_DATAGRAM_ERROR), never an application close.",
+        "claim": "Capsule path and close-code conversion: a DATA payload is a CLOSE_WEBTRANSPORT_SESSION capsule iff type 0x2843 with a complete length and value (any length, Verus unit capsule; every payload <= 16, Kani); the close is accepted IFF 4 <= len <= 1028 and the reason is UTF-8, carries exactly the big-endian 32-bit code (all 2^32) and the reason bytes; every malformed capsule is H3_DATAGRAM_ERROR; a QUIC application close reaches the application with the same 62-bit code and reason, other causes never become an application close; the leaf future's ImmediateFin/UnexpectedFin distinction (clean finish vs abrupt end) is exact under every Pending pattern.",
         "note": "Not decided: ConnectStream::run (clean FIN => (0, ''), reset => protocol failure), Worker::run, From<quinn::ConnectionError> (async / need a quinn::Connection). UTF-8 validation trusted (core::str::from_utf8) beyond 4-byte reasons.",
         "kani": CAPSULE_KANI + DRIVER_CLOSE + [ASYNC_LEAF_KANI[1]],
         "verus": [V("capsule", pair=("proto", "p_capsule_with_frame"))],
@@ -294,8 +294,8 @@ PROPS = {
     },
     "C11": {
         "level": "proof",
-        "claim": "Every sans-IO decoder under contract is total and exact on EVERY byte string up to the stated length (at least one byte more than its longest header): varints, frames (incl. the 4096 limit in the thorough tier), stream headers, datagrams, capsules, close capsules, QPACK prefix integers (all widths, overflow is an error, loop bounded by operand width) and field-line types; no panic / arithmetic overflow / OOB on any path; returned ids respect their type invariants.",
-        "note": "Not under Kani contract (HashMap/String/Vec out of CBMC's reach): Decoder::decode field-line loop, decode_string, Settings::with_frame, Headers::with_frame - see Verus units where listed; httlib-huffman, String::from_utf8, HashMap trusted.",
+        "claim": "Every sans-IO decoder under contract is total and exact: on EVERY byte string up to the stated length (Kani: varints, frames incl. the 4096 limit, stream headers, datagrams, capsules, QPACK prefix integers of all widths, field-line types) and for inputs of ANY length (Verus: Frame::read / read_async, StreamHeader::read / read_async, Settings::with_frame and Decoder::decode equal to reference interpreters, decode_string, Capsule::with_frame, Datagram::read): no panic / arithmetic overflow / OOB, loops terminate with progress, allocations are bounded by the parse limit resp. the input length, numeric overflow is an error, returned ids respect their type invariants.",
+        "note": "Assumed: httlib-huffman, String::from_utf8, HashMap, Vec, Cow, Bytes operations (each listed as an assumed helper contract in the Verus units); decode_string is taken as a deterministic function of its input by Decoder::decode.",
         "kani": [VARINT_KANI[2], VARINT_KANI[6], VARINT_KANI[7], VARINT_KANI[8], VARINT_KANI[9], FRAME_READ_20, FRAME_READ_4200, FRAME_KIND_KANI[1],
                  STREAM_HEADER_KANI[0], STREAM_KIND_KANI[1], DATAGRAM_KANI[4], CAPSULE_KANI[0], CAPSULE_KANI[1], CAPSULE_KANI[2], CAPSULE_KANI[3]]
                 + QPACK_INT_DEC + QPACK_MISC + [IDS_KANI[4], IDS_KANI[7], SETTING_ID_KANI[2]],
@@ -304,7 +304,7 @@ PROPS = {
     },
     "C12": {
         "level": "proof",
-        "claim": "Sans-IO typestate layer: on each of the four stream roles, from an arbitrary first-frame state, the accept/reject verdict and the error code for every frame kind equal the RFC 9114 7.2 / WebTransport-draft rule table; invalid session ids -> H3_ID_ERROR, oversize -> H3_EXCESSIVE_LOAD, unknown uni stream type -> H3_STREAM_CREATION_ERROR; the 15 error codes and the reserved/registered setting ids equal their registry values.",
+        "claim": "Sans-IO typestate layer: on each of the four stream roles, from an arbitrary first-frame state, the accept/reject verdict and the error code for every frame kind equal the RFC 9114 7.2 / WebTransport-draft rule table - for inputs of ANY length with any number of skipped unknown frames, sync and async (Verus units frame, frame_async) and on bounded symbolic inputs on the real crate (Kani); invalid session ids -> H3_ID_ERROR, oversize -> H3_EXCESSIVE_LOAD, truncation at FIN -> H3_FRAME_ERROR, clean FIN at a frame boundary passed through, unknown uni stream type -> H3_STREAM_CREATION_ERROR; SETTINGS: reserved/duplicate -> H3_SETTINGS_ERROR, truncated -> H3_FRAME_ERROR; the 15 error codes and the setting ids equal their registry values.",
         "note": "Quick tier: well-formed single frames (bounded). Thorough tier: every byte string <= 14 bytes. Not decided: the driver's reaction (RemoteSettingsStream::run, handle_uni_h3_stream, missing/duplicate SETTINGS, closed critical streams) - async over quinn.",
         "kani": STREAM_KANI_QUICK[:5] + STREAM_KANI_BUFFERED + STREAM_KANI_THOROUGH + MISC_KANI[:1] + SETTING_ID_KANI[1:3],
         "verus": [V("frame", pair=("proto", "p_frame_read_matches_reference_20")), V("settings", pair=("proto", "c_settingid_parse")), V("frame_async"), V("stream_header", pair=("proto", "p_uniremote_upgrade"))],
@@ -312,7 +312,7 @@ PROPS = {
     },
     "C13": {
         "level": "proof",
-        "claim": "Frames, settings and capsules at the sans-IO layer: a frame of unknown type is consumed whole (type, length, payload) before it is reported, on EVERY byte string (complete), so the skip loops never re-read its content; GREASE predicates equal 0x1f*N+0x21 for all 2^62 ids and GREASE frames are returned whole; unknown setting ids parse to 'ignore'; unknown capsule types yield no capsule.",
+        "claim": "Frames, settings and capsules at the sans-IO layer: a frame of unknown type is consumed whole (type, length, payload) before it is reported, on EVERY byte string (Kani, complete) and for any length (Verus), so the skip loops - proved for ANY number of unknown frames, sync and async - never re-read its content, and a clean end of stream after skipped frames stays a clean end; GREASE predicates equal 0x1f*N+0x21 for all 2^62 ids and GREASE frames are returned whole; unknown setting ids are ignored without changing the collected settings (reference interpreter); unknown capsule types yield no capsule.",
         "note": "Skip loop: Kani shows base case + one step per typestate (thorough tier, bounded); quick tier exercises one leading unknown frame on well-formed input. Unknown frames above the 4096-byte parse limit are refused like known ones (H3_EXCESSIVE_LOAD). Not decided: driver reactions to unknown unidirectional stream types (async).",
         "kani": FRAME_KIND_KANI + [FRAME_READ_20, FRAME_READ_4200] + STREAM_KANI_QUICK[:4] + STREAM_KANI_THOROUGH[:4]
                 + [STREAM_KIND_KANI[0], SETTING_ID_KANI[0], SETTING_ID_KANI[2], CAPSULE_KANI[0], CAPSULE_KANI[1]],
@@ -330,7 +330,7 @@ PROPS = {
     },
     "C15": {
         "level": "proof",
-        "claim": "One-shot and buffered decoders of frames and stream headers agree with one reference on EVERY byte string (so they agree with each other), need-more-data exactly on proper prefixes, buffered offset unchanged unless a value is returned; the four async leaf futures satisfy one-step inductive poll contracts from ANY state - every chunking and every Pending pattern - incl. ImmediateFin iff nothing was taken and UnexpectedFin iff something was.",
+        "claim": "One-shot, buffered and asynchronous decoders of frames and stream headers agree with ONE reference: Kani on every byte string (one-shot vs buffered, offset unchanged unless a value is returned, buffered typestate readers at every cut point), Verus for any length incl. the async copies of the logic (Frame::read_async, StreamHeader::read_async, the four read_frame_async loops, upgrade_async) as sequential compositions of the leaf futures; the four leaf futures satisfy one-step inductive poll contracts from ANY state - every chunking and every Pending pattern - incl. ImmediateFin iff nothing was taken and UnexpectedFin iff something was.",
         "note": "Unchecked assumption: async fn desugaring composes the awaits sequentially and keeps no state beyond the leaf futures', so chunking-independence lifts to Frame::read_async / StreamHeader::read_async / read_frame_async (the whole state machines do not scale in CBMC). GetBuffer/PutBuffer steps shown for lengths <= 8.",
         "kani": [FRAME_READ_20, FRAME_READ_4200, STREAM_HEADER_KANI[0], VARINT_KANI[9], FRAME_ASYNC_LIMIT] + ASYNC_LEAF_KANI + STREAM_KANI_BUFFERED + STREAM_KANI_THOROUGH[4:],
         "verus": [V("frame", pair=("proto", "p_frame_read_matches_reference_20")), V("frame_async"), V("stream_header", pair=("proto", "p_stream_header_read_matches_reference"))],
@@ -338,7 +338,7 @@ PROPS = {
     },
     "C16": {
         "level": "proof",
-        "claim": "Absolute wire format of the encoders against an independent RFC transcription (never the crate's decoder): frame / stream / setting / capsule / error-code registry values, ALPN h3, the QPACK static table == RFC 9204 Appendix A, WT preambles and datagram prefix == varint(0x41|0x54|qid) varint(session id), frame and stream-header encoders == RFC bytes, QPACK prefix integers == RFC 7541 5.1.",
+        "claim": "Absolute wire format of the encoders against an independent RFC transcription (never the crate's decoder): frame / stream / setting / capsule / error-code registry values, ALPN h3, the QPACK static table == RFC 9204 Appendix A, frame and stream-header encoders and the WT preambles == RFC bytes for any payload length, datagram prefix, QPACK prefix integers == RFC 7541 5.1, Encoder::encode == 00 00 + exactly one RFC 9204 4.5 static/literal line per field, and the endpoint's local SETTINGS advertise WebTransport, H3 datagrams and extended CONNECT with a zero-capacity QPACK table.",
         "note": "The content of the local SETTINGS (WebTransport, H3 datagrams, extended CONNECT, zero-capacity QPACK table) and Encoder::encode's line-per-field grammar are Verus units. Not under contract (HashMap iteration / sort closure / driver): the order in which Settings::generate_frame emits the pairs, sorted_headers ordering (pseudo-headers first), 'exactly one control stream, SETTINGS first' (worker).",
         "kani": [FRAME_KIND_KANI[3], STREAM_KIND_KANI[3], SETTING_ID_KANI[3]] + MISC_KANI + [QPACK_MISC[1]] + QPACK_INT_ENC[:2]
                 + [STREAM_KANI_QUICK[5], STREAM_HEADER_KANI[1], FRAME_WRITE_KANI[0], DATAGRAM_KANI[2], CAPSULE_KANI[0]],
@@ -356,8 +356,8 @@ PROPS = {
     },
     "C18": {
         "level": "proof",
-        "claim": "StatusCode: every numeric constructor yields Ok(c) iff 100 <= v <= 599 with c == v (complete), is_successful iff 200..=299, FromStr accepts exactly decimal strings of values in 100..=599.",
-        "note": "FromStr bounded to strings <= 5 bytes (all u16 decimals; u16::from_str trusted beyond). Header-map admission predicates (SessionRequest/SessionResponse::try_from, reserved headers) are Verus units where listed. Not decided: SessionRequest::new (url crate), server refusal codes, connect()'s reaction (async driver).",
+        "claim": "StatusCode: every numeric constructor yields Ok(c) iff 100 <= v <= 599 with c == v (complete), is_successful iff 200..=299, FromStr accepts exactly decimal strings of values in 100..=599; admission predicates for ALL header maps (Verus unit session): a request is admitted iff :method CONNECT, :scheme https, :protocol webtransport, :authority and :path present, each refusal names the documented cause, the request keeps the whole map; a response is accepted iff :status is present and a valid status, depending on nothing else.",
+        "note": "FromStr bounded to strings <= 5 bytes (all u16 decimals; u16::from_str trusted beyond). Known finding: StatusCode::default() == 0. Not under contract: SessionRequest::insert / Headers::insert (HashMap<String,String> + iterator closure: reserved-header immutability is NOT decided), SessionRequest::new (url crate), server refusal codes and connect()'s reaction (async driver).",
         "kani": STATUS_KANI + [K("p_reserved_headers_list", "RESERVED_HEADERS is exactly the five WebTransport pseudo-headers", [P + "session.rs::SessionRequest::RESERVED_HEADERS"])],
         "verus": [V("session")],
         "not_decided": ["SessionRequest::new / url crate", "driver reaction to refused requests"],
